@@ -178,13 +178,15 @@ def evaluate(spec):
             continue
         u = next(k for k, v in name_of.items() if v == f)
         want = set()
+        optional = set()
         for g in case.entries[f]:
             sec_idxs = case.sections[case.blocks[g].sec][1]
             k = sec_idxs.index(g)
+            via_data = False
             while True:
                 gg = sec_idxs[k]
                 if gg not in exp.deleted_blocks:
-                    want.add(exp.block_start[gg])
+                    (optional if via_data else want).add(exp.block_start[gg])
                     break
                 if gg in exp.proxy_blocks:
                     break
@@ -192,6 +194,12 @@ def evaluate(spec):
                 if k >= len(sec_idxs):
                     break
                 nb = case.blocks[sec_idxs[k]]
+                if not nb.code and sec_idxs[k] in exp.deleted_blocks and sec_idxs[k] not in exp.proxy_blocks:
+                    # wholly deleted data between the entry and the next block of
+                    # the function: the property only forbids promotion across
+                    # functions, so both outcomes are accepted
+                    via_data = True
+                    continue
                 if not nb.code or nb.func != f:
                     break
         got = set()
@@ -199,6 +207,8 @@ def evaluate(spec):
             p = obs.block_pos(b)
             if p is not None and b.size:
                 got.add(p)
+        if want <= got <= (want | optional):
+            got = want
         if got != want:
             out.fail("C06.entries", "entry-set", f"{f}: entries at {sorted(got)} expected {sorted(want)}")
     return out
